@@ -30,7 +30,7 @@ class Block(Node):
         returns:
             self, or a list of new blocks if media queries need to be rotated
         """
-        if not self.parsed:
+        if self.parsed is False:
             scope.push()
             self.name, inner = self.tokens
             scope.current = self.name
